@@ -1,6 +1,7 @@
 package verifh
 
 import (
+	"context"
 	"fmt"
 
 	"github.com/cockroachdb/errors"
@@ -14,7 +15,7 @@ import (
 
 var hiddenAnnots = []gen.Kind{gen.WHint, gen.WDetail, gen.WDomain, gen.WTelemetry, gen.WHTTP, gen.WGrpc, gen.WAssertFail, gen.WIssueLink, gen.WSafeDetails}
 
-const numHiders = 9
+const numHiders = 11
 
 type plainErr struct{ msg string }
 
@@ -42,6 +43,10 @@ func hide(kind int, base, h error, m string) error {
 		return errors.Wrapf(base, "arg %v", h)
 	case 8:
 		return errors.Mark(base, h)
+	case 9:
+		return errors.Newf("while handling: %v", h)
+	case 10:
+		return errors.AssertionFailedf("unexpected: %v", h)
 	}
 	panic("hide")
 }
@@ -88,7 +93,10 @@ func H_C07_Hidden(v *sym.V) {
 	}
 	h := hb.Err
 	plain := &plainErr{h.Error()} // same text, no annotations, a type of its own
-	base := errors.New("base")
+	var base error = errors.New("base")
+	if v.Choice("base", 2) == 1 {
+		base = errors.Wrap(context.Canceled, "base") // a primary error whose root is a well-known sentinel
+	}
 	kind := v.Choice("hider", numHiders)
 	m := v.Str("msg", sym.REGNN, 0, 1) // the replacement message, possibly empty
 	e := hide(kind, base, h, m)
@@ -100,7 +108,8 @@ func H_C07_Hidden(v *sym.V) {
 	for c := h; c != nil; c = errors.UnwrapOnce(c) {
 		hnodes = append(hnodes, c)
 	}
-	v.Assert("unreachable@"+tag, !chainHas(e, hnodes))
+	// (a hidden sentinel object may also be part of the visible primary error)
+	v.Assert("unreachable@"+tag, chainHas(e, hnodes) == (kind >= 5 && kind <= 8 && chainHas(base, hnodes)))
 	inner := hnodes[1:]
 	if kind != 8 {
 		inner = hnodes
@@ -112,7 +121,9 @@ func H_C07_Hidden(v *sym.V) {
 	}
 	sameAnalysis(v, tag, e, ep, probes)
 	for _, n := range inner {
-		v.Assert("is-hidden@"+tag, !errors.Is(e, n))
+		// the hidden part adds nothing: e matches a hidden node only if the visible part does
+		visible := kind >= 5 && kind <= 8 && errors.Is(base, n)
+		v.Assert("is-hidden@"+tag, errors.Is(e, n) == visible)
 	}
 	switch kind {
 	case 0:
@@ -142,6 +153,7 @@ func H_C07_Hidden(v *sym.V) {
 	v.Assert("text-after-hop@"+tag, e1.Error() == e.Error())
 	sameAnalysis(v, tag+"/hop", e1, ep1, probes)
 	for _, n := range inner {
-		v.Assert("is-hidden@"+tag+"/hop", !errors.Is(e1, n))
+		visible := kind >= 5 && kind <= 8 && errors.Is(base, n)
+		v.Assert("is-hidden@"+tag+"/hop", errors.Is(e1, n) == visible)
 	}
 }
